@@ -58,6 +58,12 @@ def predicates_in_closures(F, rep, rule, fn_suffix, want="is_ascii_digit", floor
     for bi, t in f.calls():
         if (mir.callee(t) or "").endswith("Iterator::all") or (mir.callee(t) or "").endswith("Iterator::any"):
             for o in mir.trace_op(f, t[2][1]):
+                if o.kind == "const" and o.data.get("k") == "fn":
+                    n += 1
+                    nm = o.data["path"].rsplit("::", 1)[-1]
+                    site = "%s bb%d" % (f.where(), bi)
+                    if nm == want: rep.ok(rule, "%s: all(char::%s)" % (fn_suffix, want), sample=site, nontrivial_key=fn_suffix + str(bi))
+                    else: rep.bad(rule, "digit-class:" + fn_suffix, "%s classifies characters with %s instead of %s (Unicode digits would count as digits)" % (fn_suffix, nm, want), site)
                 if o.kind == "agg":
                     rv = mir.rv_at(f, *o.data)
                     if rv[1].get("k") == "closure":
@@ -152,3 +158,59 @@ def zero_strip_result(F, rep, rule):
     else:
         rep.ok(rule, "every string produced on the all-digits branch is stripped text, \"0\" or an integer rendering (%d string constructions)" % n, nontrivial_key="zs")
     rep.floor(rule, "string constructions on the all-digits branch", n, 1)
+
+
+def _strip_wrappers(e):
+    """peel value-preserving / trimming wrappers off a symbolic string expression"""
+    while isinstance(e, tuple) and e[0] == "call" and isinstance(e[1], str) and any(e[1].endswith(x) for x in (
+            "ToString>::to_string", "::to_string", "::to_owned", "::trim_end_matches", "::trim_start_matches", "::trim_matches", "Deref>::deref", "::as_str", "Clone>::clone", "::trim", "String as std::convert::From<&str>>::from")):
+        e = e[2][0]
+    return e
+
+def replace_result_origin(F, rep, rule):
+    """replace_non_alphanumeric returns the accumulator built by the guarded push loop whenever a separator is set;
+    returning (a trimmed copy of) the input is allowed only when the separator is None."""
+    fs = [f for p, f in san_fns(F).items() if p.endswith("Sanitizer::replace_non_alphanumeric")]
+    if not rep.anchor(rule, "Sanitizer::replace_non_alphanumeric", fs): return
+    f = fs[0]
+    n = 0; bad = []
+    # the function has a loop: enumerate acyclic paths (loop taken at most once), enough to see every return
+    for p in mir.enum_paths(f, limit=20000):
+        if f.blocks[p[-1]]["t"][0] != "ret": continue
+        sp = mir.SymPath(f, p)
+        base = _strip_wrappers(sp.ret())
+        n += 1
+        if base == ("param", 2):
+            none_guard = any(d[0] == "discr" and "separator" in mir.show(d[1]) and rel == "eq" and 0 in vals or (d[0] == "discr" and "separator" in mir.show(d[1]) and rel == "ne" and 1 in vals) for d, (rel, vals), b in sp.conds)
+            if not none_guard: bad.append("input returned on a path where a separator is set (conditions: %s)" % [mir.show(d)[:40] for d, o, b in sp.conds][:4])
+        elif base[0] == "call" and isinstance(base[1], str) and ("String::new" in base[1] or "String::with_capacity" in base[1]):
+            pass
+        elif base[0] == "local" or base[0] == "call":
+            # accumulator after pushes shows as the String::new call; anything else is unexpected
+            if not (base[0] == "call" and "String" in str(base[1])): bad.append("returns %s" % mir.show(base)[:60])
+    if bad:
+        rep.bad(rule, "replace-bypassed", "replace_non_alphanumeric can return text that did not go through the collapsing loop: %s" % sorted(set(bad))[:2], f.where())
+    else:
+        rep.ok(rule, "every return with a separator set is the accumulator of the guarded push loop (%d return paths)" % n, nontrivial_key="acc")
+    rep.floor(rule, "return paths of replace_non_alphanumeric", n, 2)
+
+def zero_strip_paths(F, rep, rule):
+    """path-sensitive form of the zero-strip rule: on every path where all(is_ascii_digit) held, the result is not the raw segment"""
+    fs = [f for p, f in san_fns(F).items() if p.endswith("Sanitizer::remove_leading_zeros_from_segment")]
+    if not fs: return
+    f = fs[0]
+    n = 0; bad = []
+    for p in mir.enum_paths(f, limit=5000):
+        if f.blocks[p[-1]]["t"][0] != "ret": continue
+        sp = mir.SymPath(f, p)
+        digits = any(d[0] == "call" and isinstance(d[1], str) and d[1].endswith("Iterator::all") and not ((rel == "eq" and 0 in vals) or (rel == "ne" and 0 not in vals)) for d, (rel, vals), b in sp.conds)
+        if not digits: continue
+        n += 1
+        r = sp.ret()
+        inner = r
+        while isinstance(inner, tuple) and inner[0] == "call" and isinstance(inner[1], str) and any(inner[1].endswith(x) for x in ("ToString>::to_string", "::to_string", "::to_owned", "Deref>::deref", "Clone>::clone")):
+            inner = inner[2][0]
+        if inner == ("param", 2):
+            bad.append("conditions %s" % [mir.show(d)[:50] for d, o, b in sp.conds])
+    if bad: rep.bad(rule, "zeros-not-stripped-path", "an all-digit segment can be returned verbatim (leading zeros kept) on a path where the digits test succeeded: %s" % bad[:1], f.where())
+    elif n: rep.ok(rule, "no all-digits path returns the raw segment (%d paths)" % n, nontrivial_key="zsp")
